@@ -282,6 +282,11 @@ func runC17(r *Run) {
 						return
 					}
 					v := c.Resolve(portStores.stores[st-1].Val)
+					if !isStrconvResult(stripConvs(v)) {
+						all = false
+						why = "the stored port " + exprDepth(v, 0) + " is not the result of a strconv conversion of the port text (a hand-written conversion may wrap around)"
+						return
+					}
 					conds := c.PathConds()
 					lo := pr.Prove(ret, Goal{X: nil, Y: v, C: 0, assume: conds})
 					hi := pr.Prove(ret, Goal{X: v, YL: &lin{zeroTerm, 65535}, C: 0, assume: conds})
@@ -958,4 +963,17 @@ func connKindCtx(c *PathCtx, v ssa.Value) string {
 		return "?"
 	}
 	return "?"
+}
+
+// isStrconvResult: the numeric result of strconv.Atoi / ParseInt / ParseUint (EXT: exact or error).
+func isStrconvResult(v ssa.Value) bool {
+	e, ok := v.(*ssa.Extract)
+	if !ok || e.Index != 0 {
+		return false
+	}
+	c, ok := e.Tuple.(*ssa.Call)
+	if !ok {
+		return false
+	}
+	return isPkgFuncCall(c, "strconv", "Atoi") || isPkgFuncCall(c, "strconv", "ParseInt") || isPkgFuncCall(c, "strconv", "ParseUint")
 }
